@@ -30,7 +30,17 @@ func vstubSessionConnect(s *Session, ctx context.Context, host *HostInfo, eh Con
 	}
 	return &Conn{addr: "ghost"}, nil
 }
-func vstubConnClose(c *Conn)                               { vConnCloses++ }
+// Conn.Close as the pool sees it: closeWithError closes the socket and, when that fails, reports the
+// error to the connection's error handler - the pool itself (conn.go closeWithError)
+var vCloseFailBudget int
+
+func vstubConnClose(c *Conn) {
+	vConnCloses++
+	if vPool != nil && vCloseFailBudget > 0 && vBool("socket_close_fails") {
+		vCloseFailBudget-- // bound: at most one failing close per analysed call
+		vPool.HandleError(c, vErrIO, true)
+	}
+}
 func vstubInt31n(n int32) int32                            { return 0 }
 func vstubHandleNodeDown(s *Session, ip interface{}, port int) {}
 
@@ -86,6 +96,7 @@ func vNewPool() *hostConnPool {
 	p.closed = vBool("closed")
 	p.filling = vBool("filling")
 	vPool, vConnects, vConnCloses, vFillEpochs = p, 0, 0, 0
+	vCloseFailBudget = vBound("close_fail")
 	return p
 }
 
